@@ -83,45 +83,45 @@ def exact_jobs(which):
         return [{'bin': b[0], 'n': n, 'seed': seed * 1000 + i, 'tag': 'exact-rational', 'args': ['--arg', 'which=' + which]} for i in range(k)]
     return f
 
-REGISTRY['C02'] = numeric('C02', 'c02_exp.cpp', nq=30000, nt=1000000,
+REGISTRY['C02'] = numeric('C02', 'c02_exp.cpp', nq=30000, nt=8000000,
                           rule='exp: ' + RULE_STRATA, assumptions=ASSUME_FP)
-REGISTRY['C03'] = numeric('C03', 'c03_log.cpp', nq=30000, nt=1000000,
+REGISTRY['C03'] = numeric('C03', 'c03_log.cpp', nq=30000, nt=4000000,
                           rule='log: production routes {independent coefficients in both hemispheres, inverse, exp, exp beyond pi, products of two near-pi '
                                'rotations about almost the same axis (angle 2pi-eps), Random(), composition chains of 3..42 large rotations} x ' + RULE_STRATA, assumptions=ASSUME_FP)
-REGISTRY['C01'] = numeric('C01', 'c01_group.cpp', nq=20000, nt=500000, extra_bins=exact_bins, extra_jobs=exact_jobs('C01'),
+REGISTRY['C01'] = numeric('C01', 'c01_group.cpp', nq=20000, nt=2000000, extra_bins=exact_bins, extra_jobs=exact_jobs('C01'),
                           rule='group law: triples (X,Y,Z) of elements built from independently normalised rotation data in both hemispheres or through exp '
                                '(incl. beyond pi), Y=X and Y=Identity forced periodically, points up to 1e6; EXACT HALF: the same identities with == over an exact-rational scalar (harness/rational.h, __int128 fractions, rational unit quaternions by stereographic projection, both hemispheres) for SE2, SO3, SE3, SE_2_3, SGal3, R3, SO2 (coefficients only) and two bundles; ' + RULE_STRATA, assumptions=ASSUME_FP)
-REGISTRY['C06'] = numeric('C06', 'c06_jac.cpp', nq=8000, nt=200000,
+REGISTRY['C06'] = numeric('C06', 'c06_jac.cpp', nq=8000, nt=400000,
                           rule='tangent Jacobians and adjoints: ' + RULE_STRATA, assumptions=ASSUME_FP + ['float instantiations are held to 1e-2 only (the property states its bound for double)'])
 
-REGISTRY['C05'] = numeric('C05', 'c05_jacobians.cpp', nq=3000, nt=80000, shard=2500, float_groups=['SE2', 'SO3', 'SE3', 'SGAL3'], float_n_scale=0.3,
+REGISTRY['C05'] = numeric('C05', 'c05_jacobians.cpp', nq=3000, nt=160000, shard=2500, float_groups=['SE2', 'SO3', 'SE3', 'SGAL3'], float_n_scale=0.3,
                           n_scale={'BT1': 0.4, 'BT4': 0.25, 'BT0': 0.5, 'BT2': 0.3, 'BT3': 0.2, 'BT5': 0.3, 'BT6': 0.5, 'BR0': 0.6, 'BR2': 0.5, 'BA': 0.6, 'SGAL3': 0.6, 'SE23': 0.7},
                           rule='Jacobians of inverse, log, exp, compose, between, rplus, lplus, rminus, lminus, act (each w.r.t. every argument), plus/minus aliases and tangent plus/minus; '
                                'per case 4 (2 for large bundles) operations are drawn; operands: element X, tangent t, second element Y either independent or at the stratified relative transform exp(t) from X; '
                                + RULE_STRATA, assumptions=ASSUME_FP + ['oracle Jacobian = 4th-order central differences of the definition on the long-double model, step min(1e-4, 0.01*(pi-theta))',
                                                                        'float instantiations are held to 1e-2 only (the property states its bound for double)'])
 
-REGISTRY['C04'] = numeric('C04', 'c04_plusminus.cpp', nq=15000, nt=300000,
+REGISTRY['C04'] = numeric('C04', 'c04_plusminus.cpp', nq=15000, nt=450000,
                           rule='plus/minus/between definitions vs model and 45 alias forms (members, operators, tangent-side forms, functions.h facade, Map operands) compared bit-for-bit '
                                'with the canonical member; ' + RULE_STRATA, assumptions=ASSUME_FP)
 
 ALL_BUNDLES = ['BT0', 'BT1', 'BT2', 'BT3', 'BT4', 'BT5', 'BT6', 'BS0', 'BS1', 'BS2', 'BS3', 'BS4', 'BS5', 'BS6', 'BR0', 'BR1', 'BR2', 'BL0', 'BA', 'BC', 'BD']
 ALL_RN = ['R1', 'R2', 'R3', 'R4', 'R5', 'R6', 'R7', 'R8', 'R9']
 C07_GROUPS = ['SO2', 'SE2', 'SO3', 'SE3', 'SE23', 'SGAL3'] + ALL_RN + ALL_BUNDLES
-REGISTRY['C07'] = numeric('C07', 'c07_algebra.cpp', nq=4000, nt=100000, extra_bins=exact_bins, extra_jobs=exact_jobs('C07'), groups_q=C07_GROUPS, groups_t=C07_GROUPS, float_groups=CORE,
+REGISTRY['C07'] = numeric('C07', 'c07_algebra.cpp', nq=4000, nt=400000, extra_bins=exact_bins, extra_jobs=exact_jobs('C07'), groups_q=C07_GROUPS, groups_t=C07_GROUPS, float_groups=CORE,
                           rule='every generator index 0<=i<DoF of every group / Rn n=1..9 / 21 bundle layouts is enumerated (exhaustive) and compared entry-wise with the documented table, 7 out-of-range '
                                'indices must raise invalid_argument; hat/vee/bracket/inner identities on random tangent triples (every fifth triple small integers, where every identity must hold exactly); EXACT HALF: hat, vee, bracket=commutator, antisymmetry, Jacobi, inner=Frobenius, smallAdj, Adj*s=vee(X hat(s) X^-1) with == over the exact-rational scalar; '
                                + RULE_STRATA, assumptions=ASSUME_FP)
 
-REGISTRY['C15'] = numeric('C15', 'c15_interp.cpp', nq=6000, nt=150000, groups_q=CORE + ['BT1', 'BT4'], groups_t=CORE + ['R1', 'R9', 'BT0', 'BT1', 'BT3', 'BT4', 'BA'],
+REGISTRY['C15'] = numeric('C15', 'c15_interp.cpp', nq=6000, nt=220000, groups_q=CORE + ['BT1', 'BT4'], groups_t=CORE + ['R1', 'R9', 'BT0', 'BT1', 'BT3', 'BT4', 'BA'],
                           rule='pairs (A, B=A*exp(tab)) with relative rotation stratified up to pi-1e-6 and translations up to 1e6, arbitrary end velocities (zero every third case), 3 methods x {t=0, t=1, interior t, 10 parameters outside [0,1] incl. +-inf, NaN, -denorm_min, nextafter(1)}; '
                                'SLERP vs the model geodesic and vs left translation by a random L; smoothing_phi on a 20000-point grid for degrees 1..4, unsupported degrees {0,5,6,100,SIZE_MAX}; ' + RULE_STRATA, assumptions=ASSUME_FP)
 
-REGISTRY['C16'] = numeric('C16', 'c16_average.cpp', nq=1500, nt=50000, groups_q=CORE + ['R1', 'BT1'], groups_t=CORE + ['R1', 'R9', 'BT0', 'BT1', 'BT4', 'BA'], float_groups=['SE2', 'SO3', 'SE3'], shard=5000,
+REGISTRY['C16'] = numeric('C16', 'c16_average.cpp', nq=1500, nt=100000, groups_q=CORE + ['R1', 'BT1'], groups_t=CORE + ['R1', 'R9', 'BT0', 'BT1', 'BT4', 'BA'], float_groups=['SE2', 'SO3', 'SE3'], shard=5000,
                           rule='clouds of 1..50 points C (+) d_i around a centre C drawn from all rotation strata (incl. within 1e-12 of pi) with coordinates up to 1e3, radius log-uniform in [1e-6,0.5] (0.5 every fifth case), identical points every ninth case; '
                                'four routines; stationarity measured with the model logarithm; random permutation; left/right translations by random elements; ' + RULE_STRATA, assumptions=ASSUME_FP)
 
-REGISTRY['C18'] = numeric('C18', 'c18_approx.cpp', nq=20000, nt=500000,
+REGISTRY['C18'] = numeric('C18', 'c18_approx.cpp', nq=20000, nt=2000000,
                           rule='elements with coordinates from 0 and 1e-8 up to 1e9 (float: 1e4) and SGal3 times up to 1e3: reflexivity of isApprox/== (three eps), equality of q and -q; pairs Y = X (+) d with ||d||_inf = eps/100 and 100 eps for eps in {1e-12..1e-2}, '
                                'judged only when eps >= 1e4*u*max|coordinate|*max|time| (otherwise counted unresolvable); tangents with norms 1e-12..1e9: identical, against zero at eps/10 and 10 eps, relative at (1 +- eps/10) and (1 +- 10 eps); ' + RULE_STRATA,
                           assumptions=ASSUME_FP + ['X == X relies on bit-exact cancellation of X^-1*X, which holds only under the baseline FP model (no FMA contraction)'])
@@ -156,12 +156,12 @@ def memcheck_jobs(src, n):
     return f
 
 
-REGISTRY['C10'] = numeric('C10', 'c10_views.cpp', nq=2500, nt=50000, extra_bins=memcheck_bins('c10_views.cpp', ['SE2', 'SE3', 'SGAL3', 'BT1']), extra_jobs=memcheck_jobs('c10_views.cpp', 1500), groups_q=CORE + ['R1', 'R9', 'BT1', 'BT4'], groups_t=CORE + ['R1', 'R9'] + BUNDLES_T + ['BL0'],
+REGISTRY['C10'] = numeric('C10', 'c10_views.cpp', nq=2500, nt=40000, extra_bins=memcheck_bins('c10_views.cpp', ['SE2', 'SE3', 'SGAL3', 'BT1']), extra_jobs=memcheck_jobs('c10_views.cpp', 1500), groups_q=CORE + ['R1', 'R9', 'BT1', 'BT4'], groups_t=CORE + ['R1', 'R9'] + BUNDLES_T + ['BL0'],
                           rule='~45 non-mutating operations evaluated with 9 combinations of operand kinds {owning, Map, Map<const>} for (X, Y, t) and compared bit for bit with the owning computation; 13 group and 12 tangent mutating members through a '
                                'mutable view; every viewed buffer is, at random, an exactly-sized malloc block (ASan red-zones), the same shifted by one scalar (8-/4-byte-only alignment), or embedded between NaN-payload canaries compared bit for bit '
                                'after each call; copy/move/cross-kind construction and assignment; ' + RULE_STRATA, assumptions=ASSUME_FP + ['ASan red-zones detect reads/writes adjacent to exactly-sized heap blocks; far out-of-bounds accesses could escape them', 'thorough tier: the -O2 build of the same monitor also runs under valgrind memcheck (1500 cases each for SE2, SE3, SGal3 and one bundle) as a second detector'])
 
-REGISTRY['C11'] = numeric('C11', 'c11_bundle.cpp', nq=1500, nt=30000, groups_q=ALL_BUNDLES, groups_t=ALL_BUNDLES, float_groups=['BT3', 'BT5', 'BA'],
+REGISTRY['C11'] = numeric('C11', 'c11_bundle.cpp', nq=1500, nt=60000, groups_q=ALL_BUNDLES, groups_t=ALL_BUNDLES, float_groups=['BT3', 'BT5', 'BA'],
                           rule='21 bundle layouts (7 cyclic triples of SO2 SE2 SO3 SE3 SE_2_3 SGal3 R3 = every group first/middle/last, 7 single-element bundles, 3 with repeats, one of all seven + R5, the 3 layouts of the existing tests); per case '
                                '24 bundle operations are computed once and compared bit for bit, element by element, with the standalone element group at offsets from the monitor\'s own prefix sums; 22 Jacobian-like outputs pre-filled with NaN must be '
                                'block-diagonal with exact zeros elsewhere; every generator index of every layout is enumerated; a cell is (operation, layout, element index); ' + RULE_STRATA, assumptions=ASSUME_FP)
@@ -175,7 +175,7 @@ def c13_spec():
         fail = None
         for b in bs:
             if b.error: fail = (fail or '') + ' monitor %s does not build: %s' % (b.name, b.error.strip().split('\n')[0][:300])
-        n = 40000 if tier == 'quick' else 2000000
+        n = 40000 if tier == 'quick' else 8000000
         jobs = []
         for b in bs:
             if not b.path: continue
@@ -193,7 +193,7 @@ def c13_spec():
     return {'bins': bins, 'run': run}
 REGISTRY['C13'] = c13_spec()
 
-REGISTRY['C12'] = numeric('C12', 'c12_jet.cpp', build='jet', nq=1500, nt=50000, groups_q=['SO2', 'SE2', 'SO3', 'SE3', 'SE23', 'SGAL3', 'R3', 'BT1'], groups_t=['SO2', 'SE2', 'SO3', 'SE3', 'SE23', 'SGAL3', 'R3', 'R1', 'BT1', 'BT4', 'BA'], float_groups=[],
+REGISTRY['C12'] = numeric('C12', 'c12_jet.cpp', build='jet', nq=1500, nt=100000, groups_q=['SO2', 'SE2', 'SO3', 'SE3', 'SE23', 'SGAL3', 'R3', 'BT1'], groups_t=['SO2', 'SE2', 'SO3', 'SE3', 'SE23', 'SGAL3', 'R3', 'R1', 'BT1', 'BT4', 'BA'], float_groups=[],
                           shard=5000, n_scale={'BT1': 0.5, 'BT4': 0.3, 'SGAL3': 0.6},
                           rule='operations evaluated over ceres::Jet<double,2*DoF> (stand-in) with unit infinitesimals seeded on every argument; primal parts vs the double instantiation, dual parts of f(X (+) d) (-) f(X) at d=0 vs the analytic Jacobian of the same call; '
                                'manif/ceres functors (manifold Plus/Minus, local parameterisation, objective, constraint) through raw double* and Jet* arrays; argument rotation from every stratum incl. theta=0, below and just above sqrt(eps); '
@@ -249,7 +249,7 @@ def c14_spec():
         rundir = os.path.join(CK.CACHE, 'run', '%s-%d' % (p, os.getpid()))
         if os.path.isdir(rundir): shutil.rmtree(rundir)
         os.makedirs(rundir)
-        launches = 48 if tier == 'quick' else 1500
+        launches = 48 if tier == 'quick' else 4000
         tcounts = [2, 4, 8, 16]
         jobs = [(i, tcounts[i % 4]) for i in range(launches)]
         def one(job):
@@ -548,7 +548,7 @@ MANIFEST_META = {
                 note='The band (0.95,1.05) eps around the threshold is sampled and only recorded (the computed norm carries ~2u of round-off). ' + NOTE_NUM),
     'C14': dict(engine='tsan launcher', design_ref='DESIGN.md 4/C14', technique='ThreadSanitizer over many process launches with barrier-released concurrent first use of every static + bit-exact comparison with a single-threaded run',
                 text='Each launch releases 2..16 threads from a spinning barrier into the first use in the process of every function-local static of 11 group instantiations and then into 22 const operations per group on shared const elements, tangents and Map<const> views; ThreadSanitizer reports with a frame in /repo/include are violations (counted from log files, deduplicated by innermost manif frames), and every thread must reproduce the single-threaded values bit for bit.',
-                note='Schedules: 48 (quick) / 1500 (thorough) launches, each one first-use schedule (distinct schedule signatures are counted in the evidence); held on those schedules only. TSan sees only what gcc instruments; Random()/setRandom() are excluded (rand()).', ),
+                note='Schedules: 48 (quick) / 4000 (thorough) launches, each one first-use schedule (distinct schedule signatures are counted in the evidence); held on those schedules only. TSan sees only what gcc instruments; Random()/setRandom() are excluded (rand()).', ),
     'C15': dict(engine='ref-model differential monitor', design_ref='DESIGN.md 4/C15', technique='runtime monitor: end points, rejection of out-of-range parameters, SLERP vs model geodesic and left translation',
                 text='For three methods and arbitrary end velocities the end points are compared with A and B on the model, ten out-of-range parameters (incl. NaN, +-inf, -denorm_min, nextafter(1)) must raise, SLERP is compared with A*exp(t*log(A^-1 B)) evaluated on the model and with its left translate, and smoothing_phi is checked on a 20000-point grid per degree.',
                 note=NOTE_NUM + ' Out-of-range parameters are judged in the scalar type of the group (1+1e-9 is exactly 1 in float).'),
